@@ -59,7 +59,12 @@ def run_case(job):
     b = np.array([f2(q) for q in frame["b"]])
     try:
         with quiet():
-            mesh = base_mesh(dim, elem, False).copy()
+            mixed = elem.endswith("+mixed")  # a recombined mesh that keeps some triangles: two element groups of the main dimension
+            if mixed:
+                elem = elem.split("+")[0]
+            mesh = base_mesh(dim, elem, mixed).copy()
+            if mixed and len(mesh.Get_list_groupElem(dim)) < 2:
+                raise RuntimeError("harness: the mixed mesh has a single element group")
             X0 = mesh.coord.copy()
             # touch the caches before moving (a motion must invalidate them)
             _ = mesh.center
@@ -94,7 +99,7 @@ def run_case(job):
             elif abs(flux - dim * meas) > 1e-9 * meas:
                 viol.append((f"normals-outward/{key}", f"{key}: int x.n dS = {flux}, expected {dim} x measure = {dim * meas} (outward normals)", {"frame": frame, "elem": elem}))
         # point location
-        deg = 1 if elem in SERENDIPITY else ORDER[elem]
+        deg = 1 if elem in SERENDIPITY else ORDER[elem]  # (a mixed mesh pairs QUADn with the TRI of the same degree)
         p = poly(deg)
         vals = p(X0[:, 0], X0[:, 1], X0[:, 2])
         q0 = np.array([[f2(c) for c in q] for q in frame["queries"]])
@@ -103,10 +108,12 @@ def run_case(job):
         q0 = np.vstack([q0, X0[:3]])  # plus three mesh nodes
         # plus one interior point per element (up to 80): a convex combination of its vertices with weights that depend on the
         # element number - the element that contains a point need not own the mesh node closest to it
-        g0 = mesh.groupElem
-        nv = {"TRI": 3, "QUAD": 4, "TETRA": 4, "HEXA": 8, "PRISM": 6}["".join(ch for ch in elem if ch.isalpha())]
         rngq = np.random.default_rng(0)
-        inner = np.array([rngq.dirichlet(np.ones(nv) * 0.7) @ X0[g0.connect[e, :nv]] for e in range(min(g0.Ne, 160)) for _ in range(3)])
+        inner = []
+        for g0 in mesh.Get_list_groupElem(dim):
+            nv = {"TRI": 3, "QUAD": 4, "TETRA": 4, "HEXA": 8, "PRISM": 6}["".join(ch for ch in str(g0.elemType.value if hasattr(g0.elemType, "value") else g0.elemType) if ch.isalpha())]
+            inner += [rngq.dirichlet(np.ones(nv) * 0.7) @ X0[g0.connect[e, :nv]] for e in range(min(g0.Ne, 160)) for _ in range(3)]
+        inner = np.array(inner)
         n_fixed = len(q0)
         q0 = np.vstack([q0, inner])
         qm = q0 @ A.T + b
@@ -138,7 +145,7 @@ def run_case(job):
 def run(ctx):
     res = ctx.tlc_must_hold("Geometry", f"Geometry_{'thorough' if ctx.thorough else 'quick'}.cfg", what="Isometry / Parity", workers=8)
     frames = res.prints.get("FRAME", [])
-    e2 = ["TRI3", "TRI6", "QUAD4", "QUAD9"] + (["TRI10", "TRI15", "QUAD8"] if ctx.thorough else [])
+    e2 = ["TRI3", "TRI6", "QUAD4", "QUAD9", "QUAD4+mixed"] + (["TRI10", "TRI15", "QUAD8", "QUAD9+mixed"] if ctx.thorough else [])
     e3 = ["TETRA4", "HEXA8", "PRISM6"] + (["TETRA10", "HEXA20", "HEXA27", "PRISM15", "PRISM18"] if ctx.thorough else [])
     jobs = [(i, f, 2, e) for i, f in enumerate(frames) for e in e2] + [(i, f, 3, e) for i, f in enumerate(frames) for e in e3]
     ctx.pmap(run_case, jobs, chunksize=2)
